@@ -67,22 +67,22 @@ namespace Givaro {
               __GIVARO_CONDITIONAL_TEMPLATE(Source, IS_SINT(Source) && (sizeof(Source) > sizeof(Storage_t)))
               inline Element& init (Element&, const Source) const;
 
-              __GIVARO_CONDITIONAL_TEMPLATE(Source, IS_FLOAT(Source) && (sizeof(Source) >= sizeof(Storage_t)) && IS_SINT(Storage_t))
+              __GIVARO_CONDITIONAL_TEMPLATE(Source, IS_FLOAT(Source) && IS_SINT(Storage_t))
               inline Element& init (Element&, const Source) const;
 
-              __GIVARO_CONDITIONAL_TEMPLATE(Source, IS_FLOAT(Source) && sizeof(Source) >= sizeof(Storage_t) && IS_UINT(Storage_t))
+              __GIVARO_CONDITIONAL_TEMPLATE(Source, IS_FLOAT(Source) && IS_UINT(Storage_t))
               inline Element& init (Element&, const Source) const;
 
               inline Element& init (Element&, const Integer&) const final;
 
               __GIVARO_CONDITIONAL_TEMPLATE(Source, IS_UINT(Storage_t)
                                             &&!(IS_INT(Source) && (sizeof(Source) > sizeof(Storage_t))) &&!(IS_UINT(Source) && (sizeof(Source) == sizeof(Storage_t)))
-                                            &&!(IS_FLOAT(Source) && (sizeof(Source) >= sizeof(Storage_t))))
+                                            &&!IS_FLOAT(Source))
               inline Element& init (Element&, const Source&) const;
 
               __GIVARO_CONDITIONAL_TEMPLATE(Source, IS_SINT(Storage_t)
                                             &&!(IS_INT(Source) && (sizeof(Source) > sizeof(Storage_t))) &&!(IS_UINT(Source) && (sizeof(Source) == sizeof(Storage_t)))
-                                            &&!(IS_FLOAT(Source) && (sizeof(Source) >= sizeof(Storage_t))))
+                                            &&!IS_FLOAT(Source))
               inline Element& init (Element&, const Source&) const;
 
 
